@@ -109,22 +109,56 @@ def _load(pid):
 def _worker_init(pid):
     global _MOD
     boot.install()
+    try:
+        import resource
+
+        gb = int(os.environ.get('VERIF_WORKER_GB', '20'))
+        resource.setrlimit(resource.RLIMIT_AS, (gb << 30, gb << 30))
+    except Exception:  # noqa: BLE001
+        pass
     _MOD = _load(pid)
 
 
+class _TaskTimeout(BaseException):
+    pass
+
+
+def _on_alarm(signum, frame):
+    raise _TaskTimeout()
+
+
 def _worker_run(task):
+    import signal
+
     from vmc import space
 
     acc = Acc()
     space.VARIANT[0] = task.get('variant') if isinstance(task, dict) else None
+    # horizon: a task that does not come back (a library call that loops on a malformed circuit) is a failure,
+    # not a hang of the whole check
+    limit = int(os.environ.get('VERIF_TASK_TIMEOUT', '3600'))
+    try:
+        signal.signal(signal.SIGALRM, _on_alarm)
+        signal.alarm(limit)
+    except Exception:  # noqa: BLE001
+        pass
     try:
         _MOD.run_task(task, acc)
+    except _TaskTimeout:
+        acc.violation('harness/task-did-not-terminate', {'task': task}, f'no result within {limit}s (a library call probably does not terminate)')
+    except MemoryError:
+        acc.violation('harness/task-out-of-memory', {'task': task}, 'memory limit of the worker exceeded (a library call probably does not terminate)')
     except Exception:  # noqa: BLE001
         acc.violation(
             'harness/unexpected-exception',
             {'task': task},
             traceback.format_exc()[-2000:],
         )
+    finally:
+        try:
+            signal.alarm(0)
+        except Exception:  # noqa: BLE001
+            pass
     return acc
 
 
@@ -194,7 +228,7 @@ def run_check(pid, tier, jobs=None, only_task=None):
     # copy.deepcopy (equal but not identical GateType objects); modules may choose their own tasks / variants
     pred = getattr(mod, 'VARIANT_PRED', _default_variant_pred)
     extra = []
-    for v in getattr(mod, 'VARIANTS', ('deepcopy', 'requeried')):
+    for v in getattr(mod, 'VARIANTS', ('deepcopy', 'requeried', 'scrambled')):
         extra += [{**t, 'variant': v} for t in tasks if isinstance(t, dict) and 'variant' not in t and pred(t, v)]
     tasks = tasks + extra
     if only_task is not None:
@@ -259,7 +293,7 @@ def run_check(pid, tier, jobs=None, only_task=None):
         kinds = sorted({t['variant'] for t in extra})
         desc['rule'] += (f' Object variants: {len(extra)} re-runs of the smallest tasks with every harness-built circuit handed to the library '
                          f'as another Python object ({", ".join(kinds)}; deepcopy / fresh-labels: equal but not identical GateType / label objects; '
-                         f'requeried: the circuit is reached by a detour - a precursor with reversed inputs and another last gate is built, queried in every read-only way, then mutated into the wanted circuit).')
+                         f'scrambled: the gate map lists users before operands; requeried: the circuit is reached by a detour - a precursor with reversed inputs and another last gate is built, queried in every read-only way, then mutated into the wanted circuit).')
     distinct = {k: len(v) for k, v in total.outcomes.items()}
     coverage = {
         'states': int(total.states),
